@@ -63,7 +63,7 @@ func c13Records(w *World, in *Interner, prefix string) string {
 		if err := json.Unmarshal(v, &l); err != nil {
 			panic(err)
 		}
-		id, _ := strconv.Atoi(strings.TrimPrefix(l.GetId(), "L"))
+		id := c13IDNum(l.GetId())
 		rs = append(rs, rec{id, in.Addr(l.GetAddress()), in.Token(l.GetToken()), l.GetInitAmount(), l.GetCurrentAmount()})
 	}
 	sort.Slice(rs, func(i, j int) bool { return rs[i].id < rs[j].id })
@@ -196,7 +196,7 @@ func c13Case(c *Ctx) error {
 			}
 		}
 		reqOf := func(o c13Op) (string, string) {
-			req := &fpb.BalanceLockRequest{Id: "L" + strconv.Itoa(o.ID), Address: accs[o.Addr].AddrString(), Token: c13Toks[o.Tok], Amount: o.Amt, Reason: "r"}
+			req := &fpb.BalanceLockRequest{Id: c13IDStr(o.ID), Address: accs[o.Addr].AddrString(), Token: c13Toks[o.Tok], Amount: o.Amt, Reason: "r"}
 			data, _ := json.Marshal(req)
 			fn := map[string]string{"token": "lockTokenBalance", "allowed": "lockAllowedBalance"}[o.Fam]
 			if o.Unlock {
@@ -292,6 +292,72 @@ func c13Case(c *Ctx) error {
 			c.Count("unlock_pair_in_one_request")
 			continue
 		}
+		if !o.Unlock && o.Sender == w.AdminAcc.N() && rng.Intn(6) == 0 {
+			// ONE request (a task list or a batch) of two: a lock under an id that cannot become a ledger key (it holds
+			// U+0000 or U+10FFFF) - refused after the library has begun to move the balance -, then the operation at hand.
+			// The refused one is no step of the model's history: it must be refused and leave nothing to its neighbour.
+			bad := &fpb.BalanceLockRequest{Id: []string{"x\x00y", "\U0010FFFF", "L1\x00"}[rng.Intn(3)], Address: accs[o.Addr].AddrString(), Token: c13Toks[o.Tok], Amount: "1", Reason: "r"}
+			if bal := new(big.Int); true {
+				for _, b := range w.Balances("tt", in) {
+					if b.Addr == o.Addr && ((o.Fam == "token" && b.Kind == int(balance.BalanceTypeToken)) || (o.Fam == "allowed" && b.Kind == int(balance.BalanceTypeAllowed) && b.Token == o.Tok)) {
+						bal = b.Amount
+					}
+				}
+				if bal.Sign() > 0 {
+					bad.Amount = bal.String() // the whole spendable balance
+				}
+			}
+			badRaw, _ := json.Marshal(bad)
+			fn, data := reqOf(o)
+			var m1, m2 string
+			if rng.Intn(2) == 0 {
+				var tasks []*fpb.Task
+				for _, d := range []string{string(badRaw), data} {
+					nonce++
+					tasks = append(tasks, &fpb.Task{Id: w.Peer.NextTxID(), Method: fn, Args: w.SignedArgs("tt", fn, accs[o.Sender], strconv.FormatUint(nonce, 10), d)})
+				}
+				out := w.ExecTasks("tt", w.Robot.Creator, tasks)
+				m1, m2 = "TASKS FAILED: "+out.Res.Message, "TASKS FAILED: "+out.Res.Message
+				if out.Resp != nil && len(out.Resp.GetTxResponses()) == 2 {
+					m1, m2 = out.Resp.GetTxResponses()[0].GetError().GetError(), out.Resp.GetTxResponses()[1].GetError().GetError()
+				}
+			} else {
+				var ids []string
+				for _, d := range []string{string(badRaw), data} {
+					nonce++
+					sub := w.Submit("tt", fn, w.SignedArgs("tt", fn, accs[o.Sender], strconv.FormatUint(nonce, 10), d))
+					if sub.OK() {
+						ids = append(ids, sub.TxID)
+					} else if len(ids) == 0 {
+						m1 = sub.Message
+					} else {
+						m2 = sub.Message
+					}
+				}
+				if len(ids) > 0 {
+					out := w.ExecBatchIDs("tt", ids...)
+					if out.Resp == nil || len(out.Resp.GetTxResponses()) != len(ids) {
+						return fmt.Errorf("c13: batch failed: %s", out.Res.Message)
+					}
+					k := 0
+					if m1 == "" {
+						m1 = out.Resp.GetTxResponses()[k].GetError().GetError()
+						k++
+					}
+					if m2 == "" && k < len(ids) {
+						m2 = out.Resp.GetTxResponses()[k].GetError().GetError()
+					}
+				}
+			}
+			if m1 == "" {
+				return fmt.Errorf("c13: a lock under an id that cannot be a key was accepted")
+			}
+			c.Count("lock_after_refused_neighbour_in_one_request")
+			if err := record(o, m2, obsNow()); err != nil {
+				return err
+			}
+			continue
+		}
 		fn, data := reqOf(o)
 		if !o.Unlock && rng.Intn(5) == 0 {
 			// a lock request WITHOUT an id, sent as a task: the id then defaults to the transaction id, which on this route
@@ -299,7 +365,7 @@ func c13Case(c *Ctx) error {
 			req := &fpb.BalanceLockRequest{Address: accs[o.Addr].AddrString(), Token: c13Toks[o.Tok], Amount: o.Amt, Reason: "r"}
 			raw, _ := json.Marshal(req)
 			nonce++
-			tasks := []*fpb.Task{{Id: "L" + strconv.Itoa(o.ID), Method: fn, Args: w.SignedArgs("tt", fn, accs[o.Sender], strconv.FormatUint(nonce, 10), string(raw))}}
+			tasks := []*fpb.Task{{Id: c13IDStr(o.ID), Method: fn, Args: w.SignedArgs("tt", fn, accs[o.Sender], strconv.FormatUint(nonce, 10), string(raw))}}
 			out := w.ExecTasks("tt", w.Robot.Creator, tasks)
 			msg := "TASKS FAILED: " + out.Res.Message
 			if out.Resp != nil && len(out.Resp.GetTxResponses()) == 1 {
@@ -324,9 +390,38 @@ func c13Case(c *Ctx) error {
 	return nil
 }
 
+// c13IDStr: the lock id of number n. Numbers 2k and 2k+1 are spelled alike except for white space at an end ("L7" and
+// "L7 ", "L7\n", "\tL7"): different ids, which no step of the library may confuse.
+func c13IDStr(n int) string {
+	s := "L" + strconv.Itoa(n/2)
+	if n%2 == 1 {
+		switch (n / 2) % 4 {
+		case 0:
+			s += " "
+		case 1:
+			s += "\n"
+		case 2:
+			s = "\t" + s
+		default:
+			s = " " + s + " "
+		}
+	}
+	return s
+}
+
+// c13IDNum: the number of a lock id as c13IDStr spells it (0: none of them).
+func c13IDNum(s string) int {
+	for n := 0; n < 400; n++ {
+		if c13IDStr(n) == s {
+			return n
+		}
+	}
+	return 0
+}
+
 func genC13(c *Ctx) error {
 	c.ShardSize = 12
-	c.Notes["rule"] = "each case: fresh chaincode, 3 addresses funded with token and allowed balances; 12-30 signed lock/unlock requests by the admin (sometimes by others) through real batches: new ids, duplicate ids, unknown ids, amounts 0, cur-1, cur, cur+1, balance, balance+1, negative and non-numeric, amounts spelled with leading zeros or a plus sign, wrong family, missing token; lock requests without an id sent as tasks whose task id (the default lock id on that route) is a chosen, often used, id; two unlocks of one lock (a part, then the rest or one more / less) in ONE executeTasks request, the state between them taken from a run of the list cut after the first task on a copy of the ledger; 1 in 8 histories also unlock naming a foreign address (outside the property's quantifier; only correspondence is checked). Observed after every request: error class, all balances, all lock records. Non-trivial: >= 3 successful requests."
+	c.Notes["rule"] = "each case: fresh chaincode, 3 addresses funded with token and allowed balances; 12-30 signed lock/unlock requests by the admin (sometimes by others) through real batches: new ids (every second one differs from its neighbour only by white space at an end), duplicate ids, unknown ids, amounts 0, cur-1, cur, cur+1, balance, balance+1, negative and non-numeric, amounts spelled with leading zeros or a plus sign, wrong family, missing token; lock requests without an id sent as tasks whose task id (the default lock id on that route) is a chosen, often used, id; a lock that follows, in ONE task list or batch, a lock under an id that cannot become a ledger key (refused after the balance move has begun); two unlocks of one lock (a part, then the rest or one more / less) in ONE executeTasks request, the state between them taken from a run of the list cut after the first task on a copy of the ledger; 1 in 8 histories also unlock naming a foreign address (outside the property's quantifier; only correspondence is checked). Observed after every request: error class, all balances, all lock records. Non-trivial: >= 3 successful requests."
 	n := c.N(150, 3000)
 	for i := 0; i < n; i++ {
 		if err := c13Case(c); err != nil {
